@@ -10,7 +10,7 @@ ID = 'C04'
 LEVEL = 'exploration'
 RUNS = {'quick': 24000, 'thorough': 400000}
 CHUNK = 100
-PROBES = ['long_window', 'same_name_code_pair', 'parser_built_with_thread_map', 'earlier_parser_object', 'timestamps_not_monotone', 'timestamp_ties', 'record_names_thread_with_open_window', 'stray_end', 'stray_end_inside_open_window', 'reopened_start', 'crossing_pairs', 'nested_same_thread',
+PROBES = ['paged_feed_generator', 'long_window', 'same_name_code_pair', 'parser_built_with_thread_map', 'earlier_parser_object', 'timestamps_not_monotone', 'timestamp_ties', 'record_names_thread_with_open_window', 'stray_end', 'stray_end_inside_open_window', 'reopened_start', 'crossing_pairs', 'nested_same_thread',
           'other_thread_between', 'trace_domain_window', 'trace_record_inside_ordinary_window', 'undecoded_pair',
           'unknown_code', 'all_qualifier', 'fragment_none', 'fault_in_open_window', 'decoder_raised']
 RULE = ('one run = 1..6 thread programs (all decoder families, trace-domain records, known-but-undecoded and unknown '
@@ -99,7 +99,7 @@ def generate(rng, index, tier):
         return {'threads': [{'tid': 100, 'ops': ops}, {'tid': 117, 'ops': other}], 'schedule': [0] * 50 + [1, 0] * 20, 'faults': [], 'long': n}
     nthreads = rng.pick([1, 2, 2, 3, 3, 4, 6])
     mix = {'bsd': 4, 'path': 3, 'mach': 3, 'turnstile': 1, 'dyld': 1, 'perf': 1, 'tracedom': 3, 'lookup': 1, 'gstr': 2,
-           'undecoded': 2, 'unknown': 1, 'single': 2}
+           'undecoded': 2, 'unknown': 1, 'single': 2, 'anydecodable': 1}
     for k in list(mix):
         if rng.chance(0.2):
             mix[k] = 0
@@ -141,7 +141,8 @@ def generate(rng, index, tier):
     scn['faults'] = faults
     scn['tmap'] = rng.chance(0.5)          # the parser is built with a populated thread map (as PyKdebugParser does on reuse)
     scn['earlier'] = rng.chance(0.2)
-    scn['late_table'] = rng.chance(0.1)    # the caller completes the code table it handed over after building the parser       # another parser object in the same process saw unfinished operations of these threads
+    scn['late_table'] = rng.chance(0.1)
+    scn['paged'] = rng.chance(0.25)        # the same stream also goes through feed_generator() in pages on a second parser    # the caller completes the code table it handed over after building the parser       # another parser object in the same process saw unfinished operations of these threads
     if rng.chance(0.15):
         # id-remapped table: a decodable name lives under another id
         cat = worlds.catalog()
@@ -168,9 +169,13 @@ def execute(scn):
         # nothing it saw may influence the judged parser (no module-level / class-level / default-argument state)
         bump('probe:earlier_parser_object')
         bump('fault:residue')
-        ep = tool.tp_mod.TracesParser(table, {r['t']: 4242 for r in stream}, {})
+        # (that other object was built with ANOTHER code table: ids this stream uses are unknown to it, or carry other names)
+        other_table = {k: v for k, v in table.items() if k % 16 != 0}
+        for r in stream[:6]:
+            other_table[r['id']] = 'MACH_MKRUNNABLE' if table.get(r['id']) != 'MACH_MKRUNNABLE' else 'MACH_BLOCK'
+        ep = tool.tp_mod.TracesParser(other_table, {r['t']: 4242 for r in stream}, {})
         for r, ev in list(zip(stream, events))[:max(1, len(events) // 2)]:
-            if r['q'] == 1 or table.get(r['id'], '').startswith('TRACE_DATA'):
+            if r['q'] in (1, 0, 3) or table.get(r['id'], '').startswith('TRACE_DATA'):
                 try:
                     ep.feed(tool.kevent(kernel.to_bytes(r)))
                 except Exception:
@@ -346,6 +351,39 @@ def execute(scn):
     pairs = {k for ks in cat['same_name_codes'] for k in ks}
     if any(r['id'] in pairs for r in stream):
         bump('probe:same_name_code_pair')
+    if scn.get('paged') and not viols and len(stream) <= 3000:
+        # metamorphic: the stream fed through feed_generator() in pages - each page a new generator over the same iterator,
+        # read until the page's records are consumed and then closed while suspended at a yield - delivers the same windows
+        bump('probe:paged_feed_generator')
+        p2 = tool.tp_mod.TracesParser(dict(table), dict(tmap), {})
+        ev2 = worlds.kevents_of(stream)
+        idx2 = {id(e): i for i, e in enumerate(ev2)}
+        consumed = [0]
+
+        def source():
+            for e in ev2:
+                consumed[0] += 1
+                yield e
+        it = source()
+        got2 = []
+        from ..rng import Rng
+        r9 = Rng(len(stream) * 7919 + 3)
+        try:
+            while consumed[0] < len(ev2):
+                page_end = min(len(ev2), consumed[0] + r9.randint(1, 9))
+                g = p2.feed_generator(it)
+                for t in g:
+                    got2.append((type(t).__name__, [idx2.get(id(e), -1) for e in t.ktraces] if isinstance(getattr(t, 'ktraces', None), list) else None))
+                    if consumed[0] >= page_end:
+                        break
+                g.close()
+        except Exception as e:
+            got2 = ('raised', repr(e))
+        want2 = [(h_[3], None) for h_ in hist if h_[3] is not None and h_[3] != 'DecoderRaised']
+        if not any(h_[3] == 'DecoderRaised' for h_ in hist):
+            if isinstance(got2, tuple) or [g_[0] for g_ in got2] != [w_[0] for w_ in want2]:
+                bad('paged-feed-generator-differs', 'traces', 'record-by-record feed() yields %d traces %r..., paged feed_generator() %r' % (
+                    len(want2), [w_[0] for w_ in want2][:6], got2 if isinstance(got2, tuple) else [g_[0] for g_ in got2][:6]))
     crossing = _count_crossing(stream)
     if crossing:
         bump('probe:crossing_pairs', crossing)
